@@ -1,0 +1,44 @@
+//go:build verif
+
+package jpeg
+
+import (
+	"unsafe"
+
+	"seehuhn.de/go/membudget"
+)
+
+// VerifPlaneBytes runs the real pixelPlaneBytes and makeImg on a decoder with
+// the given component geometry and reports the formula's value, what makeImg
+// charged to the budget (without the per-charge overhead of membudget) and
+// the total length of the buffers it allocated (verification property C08).
+// It adds no logic of its own.
+func VerifPlaneBytes(nComp int, hv [4][2]int, width, mxx, myy int, streaming bool) (formula, charged, allocated int64, err error) {
+	const big = int64(1) << 60
+	d := &decoder{budget: membudget.New(big)}
+	d.nComp = nComp
+	d.width = width
+	for i := 0; i < nComp && i < len(d.comp); i++ {
+		d.comp[i].h = hv[i][0]
+		d.comp[i].v = hv[i][1]
+	}
+	d.streaming = streaming
+	storeMyy := myy
+	if streaming {
+		storeMyy = 1
+	}
+	formula = d.pixelPlaneBytes(mxx, storeMyy)
+	err = d.makeImg(mxx, myy)
+	charged = big - d.budget.Available() - 2*32 // Available() withholds one overhead, Charge adds one
+	if err != nil {
+		charged = 0
+	}
+	allocated = int64(len(d.y) + len(d.cb) + len(d.cr) + len(d.blackPix) + len(d.row))
+	return formula, charged, allocated, err
+}
+
+// VerifProgBlock reports the amount charged per progressive coefficient
+// block and the size of the block type that is allocated for it.
+func VerifProgBlock() (charged, size int) {
+	return bytesPerProgBlock, int(unsafe.Sizeof(block{}))
+}
